@@ -67,6 +67,7 @@ func TestGen(t *testing.T) {
 	if only("parsigdb") {
 		for _, k := range sks {
 			probeParSigDB(t, k, sh)
+			probeParSigDBLayouts(t, k, sh)
 		}
 	}
 	if only("aggsigdb") {
@@ -92,6 +93,9 @@ func TestGen(t *testing.T) {
 	}
 	if only("consensus") {
 		probeConsensusDecode(t, uks)
+	}
+	if only("dutiescache") {
+		probeDutiesCache(t)
 	}
 	if only("validatorapi") {
 		probeValidatorAPI(t, hx.Thorough())
